@@ -40,6 +40,9 @@ type helloCase struct {
 	Omit  bool     `json:"omit"`
 	Tag   string   `json:"tag"`
 	Quiet bool     `json:"quiet"`
+	// SharedWith: another ClientHelloID that is built on the same *Config between this connection's
+	// BuildHandshakeState and its Handshake
+	SharedWith string `json:"shared_with"`
 }
 
 // hellos: {"cases":[{id,sni,alpn,n,omit}]} -> per connection {ev:"Hello", id, sni, k, raw (wire bytes of
@@ -75,7 +78,22 @@ func init() {
 			if j.c.SNI == "" {
 				cfg.InsecureSkipVerify = true
 			}
-			u, wire, herr, pn := wireHello(func(c *hlib.BufConn) *tls.UConn { return tls.UClient(c, cfg, id) })
+			u, wire, herr, pn := wireHello(func(c *hlib.BufConn) *tls.UConn {
+				u := tls.UClient(c, cfg, id)
+				if j.c.SharedWith != "" {
+					// two connections share one *Config: this one is built first, then another parrot is built on
+					// the same Config, and only then this one handshakes
+					if err := u.BuildHandshakeState(); err != nil {
+						return u
+					}
+					if id2, err := hlib.LookupID(j.c.SharedWith); err == nil {
+						c2, _ := hlib.BufPipe()
+						u2 := tls.UClient(c2, cfg, id2)
+						u2.BuildHandshakeState()
+					}
+				}
+				return u
+			})
 			chs := hlib.ClientHellos(wire)
 			ev := map[string]any{"ev": "Hello", "id": j.c.ID, "sni": hlib.Ints([]byte(j.c.SNI)), "k": j.k, "tag": j.c.Tag,
 				"nrec": len(hlib.Records(wire)), "panic": pn, "err": hlib.ErrStr(herr)}
